@@ -78,6 +78,19 @@ func (vc *VC) analyzeCFG() (order []*ssa.BasicBlock) {
 		order = append(order, post[i])
 	}
 	vc.assignLoopOrdinals()
+	if vc.c != nil {
+		for k := range vc.c.Loops {
+			found := false
+			for _, li := range vc.loops {
+				if li.ord == k {
+					found = true
+				}
+			}
+			if !found {
+				panic(specFail(fmt.Sprintf("contract has invariants for loop %d but the function has no such loop (loops found: %d)", k, len(vc.loops))))
+			}
+		}
+	}
 	return order
 }
 
